@@ -23,19 +23,32 @@ structure Cfg where
   pps        : Nat       -- portsPerSubscriber
   rangeStart : Nat
   rangeEnd   : Nat
+  totalPorts : Int       -- portRangeEnd - portRangeStart + 1 on Go ints (negative when portRangeEnd is)
   logOn      : Bool      -- a Logger with Enabled=true is attached
   bulk       : Bool      -- RFC 6908 bulk format
   deriving Repr, DecidableEq
 
-/-- NewManager's defaults: 0 means 1024 / 1024 / 65535 -/
+/-- NewManager's defaults for non-negative inputs: 0 means 1024 / 1024 / 65535 (no validation: see `newManager`) -/
 def mkCfg (pps rs re : Nat) (logOn bulk : Bool) : Cfg :=
-  { pps := if pps = 0 then 1024 else pps,
-    rangeStart := if rs = 0 then 1024 else rs,
-    rangeEnd := if re = 0 then 65535 else re,
+  let pps' := if pps = 0 then 1024 else pps
+  let rs' := if rs = 0 then 1024 else rs
+  let re' := if re = 0 then 65535 else re
+  { pps := pps', rangeStart := rs', rangeEnd := re', totalPorts := (re' : Int) - (rs' : Int) + 1,
     logOn := logOn, bulk := bulk }
 
+/-- NewManager on Go ints: defaults, then the validation of the port range and block size
+    (ports and block sizes are 16 bit; anything else is rejected) -/
+def newManager (pps rs re : Int) (logOn bulk : Bool) : Option Cfg :=
+  let pps' := if pps = 0 then 1024 else pps
+  let rs' := if rs = 0 then 1024 else rs
+  let re' := if re = 0 then 65535 else re
+  if rs' < 1 ∨ re' > 65535 then none
+  else if pps' < 1 ∨ pps' > 65535 then none
+  else some { pps := pps'.toNat, rangeStart := rs'.toNat, rangeEnd := re'.toNat, totalPorts := re' - rs' + 1,
+              logOn := logOn, bulk := bulk }
+
 /-- AddPublicIP: `totalPorts / portsPerSubscriber` on Go ints -/
-def Cfg.maxSubs (c : Cfg) : Int := Int.tdiv ((c.rangeEnd : Int) - (c.rangeStart : Int) + 1) (c.pps : Int)
+def Cfg.maxSubs (c : Cfg) : Int := Int.tdiv c.totalPorts (c.pps : Int)
 
 structure PoolEntry where
   ip   : Nat
